@@ -535,7 +535,8 @@ def rule_inline_helpers(text, fspec, log, relpath):
     contracts/uncontracted_baseline.json is a helper added since the contracts were written (e.g. "extract function").  Its callers
     are checked against the callee's CONTRACT, and it has none -- so the call is replaced by the callee's body, mechanically:
         f(a0, a1)   ==>   { let __gv_a0 = a0; let __gv_a1 = a1; let p0: T0 = __gv_a0; let p1: T1 = __gv_a1; BODY }
-    (arguments are evaluated first, left to right, in the caller's scope; the block keeps the helper's locals from leaking).
+    (arguments are evaluated first, left to right, in the caller's scope; the block keeps the helper's locals from leaking); the
+    helper's own definition is then removed (its body's obligations are checked at every inlined site, with the caller's facts).
     Only for helpers without `return`, `?`, recursion, generics or pattern parameters, and only at plain call sites
     (`f(..)`, `Self::f(..)`, `Type::f(..)`, `self.f(..)`).  A helper that cannot be inlined is recorded in log.uncontracted_new:
     a failed obligation in a function that calls it is reported as undecided (exit 2), never as a violation."""
@@ -632,8 +633,12 @@ def rule_inline_helpers(text, fspec, log, relpath):
             pre += ''.join('let %s%s: %s = __gv_a%d; ' % (mu, nm, ty, i) for i, (mu, nm, ty) in enumerate(pinfo))
             rep = '{ ' + pre + body_t + ' }'
             edits.append((st, en - st, rep))
+        # the definition itself goes: every use has been replaced, and verified on its own (without the facts its callers establish)
+        # the obligations inside its body would be undecidable -- they are checked at each inlined site instead
+        seg = text[f.item_start:f.body_close + 1]
+        edits.append((f.item_start, f.body_close + 1 - f.item_start, '\n' * seg.count('\n')))
         text = apply_edits(text, edits)
-        log.rule('R-inline', '%s: %d call site(s) replaced by the body%s' % (f.key, len(sites), ' (unsafe fn)' if is_unsafe else ''))
+        log.rule('R-inline', '%s: %d call site(s) replaced by the body%s; definition removed' % (f.key, len(sites), ' (unsafe fn)' if is_unsafe else ''))
         base = base | {(relpath, f.name)}
     return text
 
